@@ -17,6 +17,15 @@
 (*    picked by RepIndex from the case itself, so that the design is spread over   *)
 (*    every bin structure.  The representation never changes a VALUE: the          *)
 (*    property-level spec ignores it (that IS the specification of this dimension);*)
+(*      "hist" : HISTORIES of dohist / calc_stats calls on one Binner, including   *)
+(*               REJECTED calls (no data in the range, no binning keyword); the    *)
+(*               abstract state (last successful specification, cleared) and the   *)
+(*               implementation's (dictionary + range attributes) evolve as        *)
+(*               actions; exhaustive to depth HistLen, deeper with tlc -simulate;  *)
+(*      "scale": pattern cases x sizes (K replicas x NB blocks, sub-pattern T):    *)
+(*               bins with hundreds to thousands of members, judged through the    *)
+(*               replication law, which is itself checked here by explicit         *)
+(*               expansion on the small scope (ScaleLaw);                          *)
 (*  - the mechanisms are run as ACTIONS, one per code step:                        *)
 (*      HistPass                     the histogram pass (Hist.tla; binsize / nbin) *)
 (*      NumPass, NumConvert, NumMerge / NumKeep   Binner._hist_by_num, _merge_last *)
@@ -28,7 +37,11 @@
 (*  - running TLC over the whole space also shows that no 32-bit overflow occurs.  *)
 EXTENDS BinStats, Json
 
-CONSTANTS Kinds,                               \* subset of {"bins", "stats", "reps"}
+CONSTANTS Kinds,                               \* subset of {"bins", "stats", "reps", "hist", "scale"}
+          HistLen,                             \* family "hist": number of calls in a history
+          RestoreOnFail,                       \* FALSE: a failing dohist leaves the dictionary cleared (the code); TRUE: a deviating
+                                               \* variant that puts the old dictionary back but not the range attributes (self-test)
+          ScaleBig,                            \* family "scale": TRUE - the larger set of sizes
           RepFull,                             \* family "reps": TRUE - full product of representations, FALSE - RepDesign
           MaxLen, Vals, BinSizes, NBinSet, NPerSet, MinVals, MaxVals,
           TMaxLen, TVals, TYVals, TWts,
@@ -112,6 +125,62 @@ ChooseYW ==
                         hasmin |-> FALSE, min |-> 0, hasmax |-> FALSE, max |-> 0])
     /\ phase' = "case" /\ UNCHANGED st
 
+\* ---- family "hist": call histories with rejected calls --------------------------------------------
+HData == {<<1, 2, 2, 5>>, <<4, 1, 3>>}
+HEv(op, mode, b, merge, hasmin, mn, hasmax, mx, nokw, cs) ==
+    [op |-> op, mode |-> mode, b |-> b, merge |-> merge, hasmin |-> hasmin, min |-> mn, hasmax |-> hasmax, max |-> mx,
+     nokw |-> nokw, cs |-> cs]
+HEvents == {HEv("dohist", "binsize", 2, FALSE, FALSE, 0, FALSE, 0, FALSE, TRUE),
+            HEv("dohist", "binsize", 2, FALSE, FALSE, 0, FALSE, 0, FALSE, FALSE),
+            HEv("dohist", "binsize", 1, FALSE, TRUE, 2, FALSE, 0, FALSE, TRUE),
+            HEv("dohist", "binsize", 2, FALSE, TRUE, 0, FALSE, 0, FALSE, FALSE),
+            HEv("dohist", "nbin", 2, FALSE, FALSE, 0, TRUE, 4, FALSE, TRUE),
+            HEv("dohist", "nperbin", 2, TRUE, FALSE, 0, FALSE, 0, FALSE, TRUE),
+            HEv("dohist", "nperbin", 2, TRUE, TRUE, 2, FALSE, 0, FALSE, FALSE),
+            HEv("dohist", "binsize", 2, FALSE, TRUE, 9, FALSE, 0, FALSE, TRUE),          \* no data: rejected
+            HEv("dohist", "binsize", 1, FALSE, TRUE, 0, TRUE, 0, FALSE, TRUE),           \* no data: rejected
+            HEv("dohist", "binsize", 1, FALSE, TRUE, 3, FALSE, 0, TRUE, TRUE),           \* no binning keyword: rejected
+            HEv("dohist", "binsize", 1, FALSE, FALSE, 0, FALSE, 0, TRUE, TRUE),          \* no binning keyword: rejected
+            HEv("calc", "binsize", 1, FALSE, FALSE, 0, FALSE, 0, FALSE, TRUE)}
+HSt0 == [s |-> [has |-> FALSE, last |-> 0, cleared |-> FALSE], m |-> [hashist |-> FALSE, spec |-> 0, dmin |-> 0]]
+HChooseData ==
+    /\ phase = "start" /\ "hist" \in Kinds
+    /\ \E x \in HData : c' = [x |-> x, y |-> DeriveY(x), w |-> DeriveW(x), h |-> <<>>]
+    /\ st' = HSt0 /\ phase' = "hist"
+\* one call: the abstract step (rejected call = stutter or drop) and the code's step (Binner.dohist clears the
+\* dictionary, stores the requested range in attributes, THEN may raise; calc_stats reads both)
+HEvent ==
+    /\ phase = "hist" /\ Len(c.h) < HistLen
+    /\ \E ev \in HEvents :
+         LET k == Len(c.h) + 1  cc == BEvCase(c, ev)  rej == BEvRejects(c, ev)
+         IN /\ c' = [c EXCEPT !.h = Append(@, ev)]
+            /\ st' = IF ev.op = "calc" THEN st
+                     ELSE IF rej THEN [s |-> [st.s EXCEPT !.cleared = TRUE],
+                                       m |-> IF RestoreOnFail THEN [st.m EXCEPT !.dmin = Lo(cc)]
+                                             ELSE [hashist |-> FALSE, spec |-> 0, dmin |-> Lo(cc)]]
+                     ELSE [s |-> [has |-> TRUE, last |-> k, cleared |-> FALSE], m |-> [hashist |-> TRUE, spec |-> k, dmin |-> Lo(cc)]]
+    /\ UNCHANGED phase
+
+\* ---- family "scale" ----------------------------------------------------------------------------------
+ScalePatterns == {[x |-> <<1, 2, 4, 5>>, y |-> <<3, 0, 1, 4>>, w |-> <<1, 2, 1, 1>>],
+                  [x |-> <<3, 1, 1, 2>>, y |-> <<0, 3, 1, 3>>, w |-> <<2, 1, 1, 2>>],
+                  [x |-> <<2, 5>>, y |-> <<4, 0>>, w |-> <<1, 2>>]}
+ScaleModes == {<<"binsize", 2>>, <<"binsize", 4>>, <<"nperbin", 1>>, <<"nperbin", 2>>}
+\* <<K, NB, T>>: bins of K * (members of the pattern bin) data; sizes across and at the 256 boundary, even and odd
+ScaleSets == {<<128, 4, 1>>, <<129, 6, 1>>, <<150, 10, 1>>, <<257, 8, 1>>, <<304, 10, 8>>, <<512, 6, 8>>, <<1000, 4, 8>>, <<4097, 2, 1>>}
+             \cup (IF ScaleBig THEN {<<200, 60, 8>>, <<500, 40, 1>>, <<2048, 8, 8>>, <<131, 80, 1>>, <<1001, 12, 1>>} ELSE {})
+ChooseScalePattern ==
+    /\ phase = "start" /\ "scale" \in Kinds
+    /\ \E pt \in ScalePatterns : c' = pt
+    /\ phase' = "spat" /\ UNCHANGED st
+ChooseScale ==
+    /\ phase = "spat"
+    /\ \E m \in ScaleModes : \E sc \in ScaleSets :
+         LET cc == [x |-> c.x, y |-> c.y, w |-> c.w, mode |-> m[1], b |-> m[2], merge |-> FALSE,
+                    hasmin |-> FALSE, min |-> 0, hasmax |-> FALSE, max |-> 0, scale |-> [K |-> sc[1], NB |-> sc[2], T |-> sc[3]]]
+         IN BScPatternOK(cc) /\ c' = cc
+    /\ phase' = "scase" /\ UNCHANGED st
+
 \* ---- the mechanisms -----------------------------------------------------------------------
 Runnable(cc) == ~NoData(cc) /\ (cc.mode = "nperbin" \/ (~Degenerate(cc) /\ Unambiguous(cc)))
 
@@ -146,6 +215,7 @@ Assemble ==
     /\ st' = BMechObs(c, st.p, st.bins) /\ phase' = "done" /\ UNCHANGED c
 
 NextExport == ChooseData \/ ChooseSpec \/ ChooseX \/ ChooseYW \/ ChooseRepData \/ ChooseRep
+              \/ HChooseData \/ HEvent \/ ChooseScalePattern \/ ChooseScale
 Next == NextExport \/ HistPass \/ NumPass \/ NumConvert \/ NumMerge \/ NumKeep \/ CalcStats \/ Assemble
 
 NextNoStats == NextExport \/ NumPass \/ NumConvert \/ NumMerge \/ NumKeep      \* self-test of MergeRefines
@@ -203,6 +273,60 @@ RepCarriesNoValue == (phase = "done" /\ c.x \in RepData) =>
     \A t \in {<<1, 3, 6>>} :
         BFailing([c EXCEPT !.rep = RepOf(t)], st) = BFailing(c, st)
 
+\* histories: what the code keeps (dictionary + range attribute) matches the abstract state - a dictionary that
+\* is there holds the results of the last successful call AND the range attribute calc_stats reads is that call's
+HistMechRefines == phase = "hist" =>
+    /\ st.m.hashist => /\ st.s.has /\ st.m.spec = st.s.last
+                       /\ st.m.dmin = Lo(BEvCase(c, c.h[st.m.spec]))
+    /\ ~st.m.hashist => (~st.s.has \/ st.s.cleared)
+
+\* the replication law, by explicit expansion on the small scope
+LawSets == {<<2, 2, 1>>, <<2, 2, 2>>, <<4, 1, 2>>, <<3, 1, 1>>}
+ScaleLawFor(cc, K, NB, T) ==
+    LET n0   == Len(cc.x)  per == BScPerBlock(cc)  step == BScStep(cc)
+        pOf(j)   == ((j - 1) % n0) + 1
+        rOf(j)   == ((j - 1) \div n0) % K
+        blkOf(j) == (j - 1) \div (n0 * K)
+        J    == 1..(NB * K * n0)
+        xb   == [j \in J |-> cc.x[pOf(j)] + blkOf(j) * step]
+        yb   == [j \in J |-> cc.y[pOf(j)] * T + (rOf(j) % T)]
+        wb   == [j \in J |-> cc.w[pOf(j)]]
+        cb   == [x |-> xb, y |-> yb, w |-> wb, mode |-> cc.mode, b |-> IF cc.mode = "nperbin" THEN cc.b * K ELSE cc.b,
+                 merge |-> FALSE, hasmin |-> FALSE, min |-> 0, hasmax |-> FALSE, max |-> 0]
+        ones == SOnes(NB * K * n0)
+        Pb(i) == IF cc.mode = "nperbin" THEN LET sp == SSortPos(xb, J) IN {sp[k] : k \in ((i - 1) * cb.b + 1)..(i * cb.b)}
+                 ELSE VRange(Members(cb, i - 1))
+    IN /\ (IF cc.mode = "nperbin" THEN Len(BCounts(cb)) ELSE NBin(cb)) = NB * per
+       /\ \A i \in 1..(NB * per) :
+            LET blk == (i - 1) \div per  P == BScMembers(cc, (i - 1) % per)  B == Pb(i)  shift == blk * step
+            IN /\ B = {j \in J : blkOf(j) = blk /\ pOf(j) \in P}
+               /\ P # {} =>
+                    /\ SMean(xb, ones, B) = RAdd(BLMean(cc.x, SOnes(n0), P, 1), RInt(shift))
+                    /\ SMedian(xb, B) = RAdd(BLMedian(cc.x, P, 1, K), RInt(shift))
+                    /\ BVarPop(xb, B) = BLVar(cc.x, SOnes(n0), P, 1)
+                    /\ SMean(yb, ones, B) = BLMean(cc.y, SOnes(n0), P, T)
+                    /\ SMedian(yb, B) = BLMedian(cc.y, P, T, K \div T)
+                    /\ BVarPop(yb, B) = BLVar(cc.y, SOnes(n0), P, T)
+                    /\ SSumW(wb, B) = K * SSumW(cc.w, P)
+                    /\ SMean(yb, wb, B) = BLMean(cc.y, cc.w, P, T)
+                    /\ SVar(yb, wb, B) = BLVar(cc.y, cc.w, P, T)
+                    /\ SErr2Calc(yb, wb, B, SMean(yb, wb, B)) = BLErr2Calc(cc.y, cc.w, P, T, K)
+                    /\ SErr2Calc(xb, wb, B, SMean(xb, wb, B)) = BLErr2Calc(cc.x, cc.w, P, 1, K)
+ScaleLaw == phase = "scase" => \A ls \in LawSets : ScaleLawFor(c, ls[1], ls[2], ls[3])
+\* the law formulas at the exported sizes stay inside TLC's integers (an overflow is a TLC error, here rather than
+\* while judging) and are sane
+ScaleFormulasDefined == phase = "scase" =>
+    \A i0 \in 0..(BScPerBlock(c) - 1) :
+        LET P == BScMembers(c, i0)  K == c.scale.K  T == c.scale.T  NN == Cardinality(P) * K  n0 == Len(c.x)
+        IN P # {} =>
+             /\ K % T = 0
+             /\ BLVar(c.y, SOnes(n0), P, T)[1] >= 0 /\ RMul(BLVar(c.y, SOnes(n0), P, T), RNorm(NN, NN - 1))[1] >= 0
+             /\ RDiv(RMul(BLVar(c.y, SOnes(n0), P, T), RNorm(NN, NN - 1)), RInt(NN))[2] > 0
+             /\ RDiv(RMul(BLVar(c.x, SOnes(n0), P, 1), RNorm(NN, NN - 1)), RInt(NN))[2] > 0
+             /\ BLErr2Calc(c.y, c.w, P, T, K)[1] >= 0 /\ BLErr2Calc(c.x, c.w, P, 1, K)[1] >= 0
+             /\ BLMedian(c.y, P, T, K \div T)[2] \in {1, 2}
+             /\ RAdd(BLMean(c.x, c.w, P, 1), RInt((c.scale.NB - 1) * BScStep(c)))[2] > 0
+
 \* ---- export -------------------------------------------------------------------------------------
-Export == (DoExport /\ phase = "case") => PrintT(<<"CASE", ToJson(c)>>)
+Export == (DoExport /\ (phase \in {"case", "scase"} \/ (phase = "hist" /\ Len(c.h) = HistLen))) => PrintT(<<"CASE", ToJson(c)>>)
 =============================================================================
